@@ -28,8 +28,9 @@ type c15Scn struct {
 	PayloadS int    `json:"server_payload"`
 	Seg      int    `json:"seg"` // stream: segmentation plan index
 	IdlePast bool   `json:"idle_past_deadline"`
-	Server   int    `json:"server"` // deadline: scripted server behaviour
-	Via      int    `json:"via"`    // 0 DialContext, 1 DialTimeout, 2 Dialer.DialURL
+	Server   int    `json:"server"`               // deadline: scripted server behaviour
+	Via      int    `json:"via"`                  // 0 DialContext, 1 DialTimeout, 2 Dialer.DialURL, 3 Dialer.DialURLContext (ctx deadline < dialer timeout), 4 transport.DialURLContext, 5 dial_timeout URL parameter
+	Read     int    `json:"read_chunk,omitempty"` // stream: size of the post-login Read calls (0: one buffer for the whole payload)
 	Choices  []int  `json:"choices,omitempty"`
 }
 
@@ -112,7 +113,7 @@ func c15Stream(sc c15Scn, o *c15Obs) func() {
 				o.postErr = "server write: " + err.Error()
 			}
 			buf := make([]byte, len(pc))
-			n, err := io.ReadFull(conn, buf)
+			n, err := c15ReadFull(conn, buf, sc.Read)
 			o.serverGot = buf[:n]
 			if err != nil && len(pc) > 0 {
 				o.postErr = "server read: " + err.Error()
@@ -142,7 +143,7 @@ func c15Stream(sc c15Scn, o *c15Obs) func() {
 				o.postErr = "client write: " + err.Error()
 			}
 			buf := make([]byte, len(ps))
-			n, err := io.ReadFull(conn, buf)
+			n, err := c15ReadFull(conn, buf, sc.Read)
 			o.clientGot = buf[:n]
 			if err != nil && len(ps) > 0 {
 				o.postErr = "client read: " + err.Error()
@@ -151,6 +152,26 @@ func c15Stream(sc c15Scn, o *c15Obs) func() {
 		})
 		vs.WaitUntil("both sides done", func() bool { return o.serverDone && o.clientDone })
 	}
+}
+
+// c15ReadFull fills buf with Read calls of at most chunk bytes (0: io.ReadFull with the whole buffer).
+func c15ReadFull(conn net.Conn, buf []byte, chunk int) (int, error) {
+	if chunk <= 0 {
+		return io.ReadFull(conn, buf)
+	}
+	got := 0
+	for got < len(buf) {
+		end := got + chunk
+		if end > len(buf) {
+			end = len(buf)
+		}
+		n, err := conn.Read(buf[got:end])
+		got += n
+		if err != nil {
+			return got, err
+		}
+	}
+	return got, nil
 }
 
 var c15Servers = []string{"never-accepts", "silent", "partial-prompt", "garbage-no-cr", "callsign-then-silence", "closes-at-once", "dribbles", "callsign-password-then-silence", "wrong-prompts"}
@@ -200,6 +221,19 @@ func c15Deadline(sc c15Scn, o *c15Obs) func() {
 				_, err = telnet.DialTimeout(c15Addr, "N0CALL", "pw", T)
 			case 2:
 				_, err = telnet.Dialer{Timeout: T}.DialURL(c15URL())
+			case 3:
+				ctx, cancel := vcontext.WithTimeout(vcontext.Background(), T)
+				defer cancel()
+				_, err = telnet.Dialer{Timeout: 10 * T}.DialURLContext(ctx, c15URL())
+			case 4:
+				ctx, cancel := vcontext.WithTimeout(vcontext.Background(), T)
+				defer cancel()
+				transport.RegisterDialer("telnet", telnet.DefaultDialer) // as the package's init does
+				_, err = transport.DialURLContext(ctx, c15URL())
+			case 5:
+				u := c15URL()
+				u.Params.Set("dial_timeout", T.String())
+				_, err = telnet.Dialer{Timeout: 10 * T}.DialURL(u)
 			default:
 				ctx, cancel := vcontext.WithTimeout(vcontext.Background(), T)
 				defer cancel()
@@ -215,7 +249,7 @@ func c15Deadline(sc c15Scn, o *c15Obs) func() {
 func (sc c15Scn) describe() string {
 	if sc.Kind == "stream" {
 		_, seg := c15Seg(sc.Seg, 0)
-		return fmt.Sprintf("stream call=%q payloads c=%d s=%d seg=%s via=%d idlePastDeadline=%v", core.Trunc(c15Calls[sc.Call], 20), sc.PayloadC, sc.PayloadS, seg, sc.Via, sc.IdlePast)
+		return fmt.Sprintf("stream call=%q payloads c=%d s=%d seg=%s via=%d idlePastDeadline=%v readChunk=%d", core.Trunc(c15Calls[sc.Call], 20), sc.PayloadC, sc.PayloadS, seg, sc.Via, sc.IdlePast, sc.Read)
 	}
 	return fmt.Sprintf("deadline server=%s via=%d", c15Servers[sc.Server], sc.Via)
 }
@@ -307,8 +341,18 @@ func C15(args []string) {
 			scns = append(scns, c15Scn{Kind: "stream", Call: 0, PayloadC: 2, PayloadS: 2, Seg: seg, Via: via, IdlePast: true})
 		}
 	}
+	// post-login reads smaller than what the login reader may still hold
+	for _, chunk := range []int{1, 3, 8} {
+		for _, seg := range []int{0, 3} {
+			for ci := 0; ci < 2; ci++ {
+				for _, pl := range [][2]int{{2, 2}, {3, 3}, {1, 3}} {
+					scns = append(scns, c15Scn{Kind: "stream", Call: ci, PayloadC: pl[0], PayloadS: pl[1], Seg: seg, Via: ci % 2, Read: chunk})
+				}
+			}
+		}
+	}
 	for sv := range c15Servers {
-		for via := 0; via < 3; via++ {
+		for via := 0; via < 6; via++ {
 			scns = append(scns, c15Scn{Kind: "deadline", Server: sv, Via: via})
 		}
 	}
